@@ -27,7 +27,7 @@ def run(env, res):
                 'yaml layout: flow style, JSON, first step on line 1, other indentation); a case is '
                 'non-trivial when the model accepts it and it terminates; distinct by canonical program text')
     directed = [('c11', fo.c11_family, env.n(108, 100000))]
-    flowcheck.run_streams(env, res, directed, env.n(500, 20000), weights={'pype': 6, 'fail': 3, 'stop': 1, 'stoppipeline': 1.5},
+    flowcheck.run_streams(env, res, directed, env.n(500, 100000), weights={'pype': 6, 'fail': 3, 'stop': 1, 'stoppipeline': 1.5},
                           random_monitor=flowcheck.monitor_all)
 
 
